@@ -48,7 +48,7 @@ PROPS = {
     'C02': dict(traits=None, part='all', count=True, theorems=['DW.C02_impl_list', 'DW.C02_delegation_same_bounds', 'DW.implPreds_shortcut', 'DW.C18_effect', 'DW.C09_fieldwise', 'DW.C06_skipped_never_mentioned', 'DW.C02_obligations', 'DW.C02_well_typed', 'DW.typeable_of_validated', 'DW.C02_type_checks', 'DW.C02_obligations_sub', 'DW.C02_preservation', 'DW.C02_never_stuck', 'DW.eval_progress', 'DW.eval_preserves', 'DW.NonVacuous.cxTotal', 'DW.matchPat_preserves', 'DW.applyFn_preserves', 'DW.NonVacuous.accepted', 'DW.NonVacuous.rawOK', 'DW.NonVacuous.implsOK'],
                 enums=None, configs_quick=['default', 'safe', 'zod', 'nightly'], diagnostics=True, design='7/C02'),
     'C03': dict(traits=['PartialEq'], theorems=['DW.C03_validated', 'DW.C03_eq'], enums=['incomparable', 'skip', 'fieldopts'], configs_quick=['default', 'safe', 'zod', 'nightly'], design='7/C03'),
-    'C04': dict(tables=True, traits=['PartialOrd', 'Ord'], theorems=['DW.buildDiscriminants_spec', 'DW.C04_ord_refines', 'DW.C04_delegation', 'DW.C04_agree', 'DW.NonVacuous.tiOK', 'DW.NonVacuous.vals'],
+    'C04': dict(tables=True, traits=['PartialOrd', 'Ord'], theorems=['DW.C04_validated', 'DW.buildDiscriminants_spec', 'DW.C04_ord_refines', 'DW.C04_delegation', 'DW.C04_agree', 'DW.NonVacuous.tiOK', 'DW.NonVacuous.vals'],
                 enums=['discriminants', 'incomparable', 'skip', 'fieldopts'], configs_quick=['default', 'safe', 'nightly', 'zod'], design='7/C04'),
     'C05': dict(tables=True, traits=['PartialEq', 'Eq', 'PartialOrd', 'Ord', 'Hash'],
                 theorems=['DW.C05_skip_uniform', 'DW.C05_skip_hash_superset', 'DW.C05_eq_iff_pcmp', 'DW.C05_eq_symm', 'DW.C05_eq_trans',
@@ -67,7 +67,7 @@ PROPS = {
                 enums=['bounds', 'skip'], configs_quick=['default', 'safe', 'zod'], design='7/C09'),
     'C10': dict(traits=['Debug'], theorems=['DW.C10_validated', 'DW.C10_transcript', 'DW.C10_names'], enums=['debug', 'skip', 'fieldopts'], configs_quick=['default', 'safe', 'zod'], design='7/C10'),
     'C11': dict(traits=['Default'], theorems=['DW.C11_body', 'DW.C11_validated'], enums=['default'], configs_quick=['default', 'safe', 'zod'], design='7/C11'),
-    'C12': dict(tables=True, traits=['PartialEq', 'PartialOrd', 'Ord'], theorems=['DW.C12_no_ub_eq', 'DW.C12_no_ub_ord', 'DW.C12_safe_no_unsafe'],
+    'C12': dict(tables=True, traits=['PartialEq', 'PartialOrd', 'Ord'], theorems=['DW.C12_validated', 'DW.C12_no_ub_eq', 'DW.C12_no_ub_ord', 'DW.C12_safe_no_unsafe'],
                 enums=['incomparable', 'discriminants'], configs_quick=['default', 'safe', 'nightly', 'zod'], unsafe_scan=True, design='7/C12'),
     'C13': dict(traits=STD, theorems=['DW.C13_eq_cfg_independent', 'DW.C13_ord_cfg_independent', 'DW.C13_untouched_traits',
                                       'DW.C13_zeroize_inert', 'DW.C13_forgetDiscr'],
